@@ -2,6 +2,18 @@
 """Regenerates /verif/MANIFEST.json from the table below (one row per claimed property)."""
 import json, subprocess
 CHECKS = {
+ "C02": ("A", "bounded-exhaustive enumeration of four input families (full rule grammar, distance-1 token mutations of a rule corpus, all short strings over a noise alphabet, numeric literals) under a deterministic step budget; every case through compile, Rule::apply, run, trace_changes and get_trace_string",
+         "Every rule of rulegen(3) (thorough: rulegen(4), 106 M calls) x hand-shaped words, every multi-element substitution over length/set/variable items, every rule at token-edit distance 1 from a frozen corpus, every string of <= 3 (4) characters over 48 characters as rule, word and both alias kinds, and over-large numerals in every numeric position are run under a tick budget that turns a non-advancing loop into a located failure. The pinned tree has many genuine C02 defects; they are listed in known_findings.json by call site (panics) or rule shape (hangs) so that any new crash class is a violation.",
+         "A hang is decided by a step budget (2000 + 20(|w|+1)(|r|+1) loop iterations; terminating cases in the boxes use < 5% of it), not by a clock. Stack overflow or allocation failure would abort the check rather than pass. Known hang classes are identified by rule shape, so a new hang inside an already listed shape class is not distinguished.", "DESIGN.md §5 C02"),
+ "C07": ("A", "bounded-exhaustive enumeration of identity rules (variables, alphas) x decorated word space; oracle: structural identity, and a reference for `A > B / X=1 _ 1`",
+         "All `X1=1..Xk=k > 1..k` rules for k <= 2 (thorough 3) over 8 bindable element kinds with every one-item-per-side environment, all feature / node / length / stress alpha identities, applied to every decorated word of W(I4,3) (thorough W(I4,4)) and to every segment of the universe; plus the variable-in-context law against a reference. 9 M applications in the quick tier, all enumerated.",
+         "Identity needs no model. The (c) reference skips words with long segments (identity of neighbours is then ambiguous).", "DESIGN.md §5 C07"),
+ "C08": ("B", "explicit-state breadth-first reachability over structural words with the real Rule::apply as transition function; invariant checked on every reachable state",
+         "BFS from 12 seed words over a 66-rule alphabet that covers every structure-changing path (depth 2 quick, 4 thorough), plus every rule of rulegen(3) from the seeds and rulegen(2) chained to depth 3; states are full structural words (no abstraction), deduplicated; the well-formedness invariant of the property is evaluated on every state; counterexamples are shortest rule sequences, replayable.",
+         "Bounded by the rule alphabets, the depth and the size constraint (<= 12 segments, <= 8 syllables are expanded). Err successors are not states.", "DESIGN.md §5 C08"),
+ "C09": ("A+B", "exhaustive enumeration of the segment space (base + <= 2 diacritics, single feature changes), all ordered phone pairs, bounded word shapes, and all BFS-reachable words; oracle: parse(render(w)) == w and fixed point of run([])",
+         "Every feature bundle the parser accepts for base + <= 1 (thorough 2) diacritics and every single feature/node change of those, every ordered pair of base phones in one syllable and across a boundary, every word shape <= 3 (4) segments over a 4-phone inventory with all length/stress/tone/boundary patterns, and every state of the C08 BFS are rendered and re-parsed. Remaining genuine failures are listed bundle-exact / pair-exact in known_findings/, so any new bundle is a violation.",
+         "Renderings containing � are outside the property (counted). Bounded by 2 diacritics and the word-shape box.", "DESIGN.md §5 C09"),
  "C06": ("A", "bounded-exhaustive enumeration of the full rule grammar (rulegen(n)) with a planted unmatchable literal x word set; oracle: structural identity whenever the call returns Ok",
          "Every rule with <= 3 items (thorough: <= 4, cursor-logic constructs) of a finite grammar covering sets, optionals, ellipses, structures, variables, alphas, environment sets, the special environment and condensed rules gets a mandatory /ɮ/ planted in every input alternative (insertion: every context), at the start and at the end, and is applied by the real interpreter to every word of a hand-shaped set (thorough: plus all decorated words of W(I4,3)); 3.1 M (quick) applications, all enumerated. The oracle needs no model: a rule that cannot match must return the word bit-identical.",
          "Bounded by the item alphabets of harness/src/rulegen.rs and rules of <= 4 items. Err results are not violations of this property (panics/hangs are C02's).", "DESIGN.md §5 C06"),
